@@ -35,7 +35,7 @@ def run(ctx: Ctx):
     # "a trip is ... ended only at its destination": the trip activity is left (exit) and counts as finished (terminal
     # condition) exactly when no link of its route is left — not when the remaining travel time rounds to zero
     from . import c03
-    ctx.attempt(c03.trip_end_tables, ctx, "D5")
+    ctx.attempt(c03.trip_end_tables, ctx, "D5", True)
     # a travelling vehicle's stored route stays anchored at its position: the traversal contract move() relies on
     from . import c06
     ctx.attempt(c06.split, ctx)
